@@ -287,8 +287,21 @@ fn record(templates_path: &str, out_path: &str) {
                 let mut f = json_to_bytes(&t["file"]);
                 for _ in 0..n_rand {
                     let pal = rng.bytes(2 * npal);
-                    // random indices; one in eight is an end of the index range (0, 1, npal-2, npal-1)
-                    let img: Vec<u8> = (0..img_len).map(|_| index_in(&mut rng, npal)).collect();
+                    // texels inside the crop (offsets printed by the spec): random indices, one in eight an end
+                    // of the index range (0, 1, npal-2, npal-1); the other texels are padding, "don't care":
+                    // 0xFF, the first value that is no palette index, any byte, or valid indices
+                    let pad_mode = rng.below(4);
+                    let mut img: Vec<u8> = (0..img_len)
+                        .map(|_| match pad_mode {
+                            0 => 0xFF,
+                            1 => npal.min(255) as u8,
+                            2 => rng.next() as u8,
+                            _ => rng.below(npal) as u8,
+                        })
+                        .collect();
+                    for o in t["crop"].as_array().unwrap() {
+                        img[u(o)] = index_in(&mut rng, npal);
+                    }
                     f[pal_at..pal_at + pal.len()].copy_from_slice(&pal);
                     f[img_at..img_at + img_len].copy_from_slice(&img);
                     rec.ev("ci8", "tpl", "random", 100, w, h, &img, &pal, single(read_container("tpl", &f), w, h));
